@@ -18,6 +18,7 @@ VARIANTS = [
     {'a': 'x-', 'b': 'x_', 'c': 'q'},
     {'a': '1e+30', 'b': '8.json', 'c': 'q'},
     {'a': 'A b', 'b': 'a.b', 'c': 'q'},
+    {'a': 'Ab', 'b': 'ab', 'c': 'q'},
 ]
 BUCKETS = [
     {'u': 'u', 'u2': 'u2'},
@@ -33,6 +34,14 @@ def conc_str(chars, v):
 
 def conc_name(name, v):
     return '/'.join(conc_str(c, v) for c in name)
+
+
+def plain_objs(objs):
+    """model state -> JSON-friendly {bucket: {name: data}}"""
+    out = {}
+    for b, m in (objs or {}).items() if isinstance(objs, dict) else []:
+        out[b] = {'/'.join(''.join(c) for c in n): d for n, d in m.items()} if isinstance(m, dict) else {}
+    return out
 
 
 def behaviours_from_sim(ctx, files):
@@ -139,7 +148,7 @@ def run(ctx):
                 what += '-error'
             if bad is not None:
                 bad = {k: (v if k not in ('disk', 'names') else v[:12]) for k, v in bad.items()}
-            ctx.violation('C18:fsbucket:observed:%s' % what, {'obs': bad, 'expected_state': st.get('objs')},
+            ctx.violation('C18:fsbucket:observed:%s' % what, {'obs': bad, 'expected_state': plain_objs(st.get('objs'))},
                           'observed FSBucket result is not a behaviour of Storage.tla (record %d): %s' % (idx, json.dumps(bad)[:700]))
         elif not r.ok:
             raise Infra('StorageTrace: %s %s\n%s' % (r.error, r.error_name, r.out[-2500:]))
@@ -156,7 +165,7 @@ def run(ctx):
     service_names(ctx)
 
     ctx.cov['rule'] = ('behaviours = TLC -simulate walks of Storage.tla (2 buckets, all 39 names of depth <= 3 over {a,b,ab}, 4 data values, every '
-                       'string prefix) concretized by 5 name alphabets, every step and the file tree compared; observations = random histories on '
+                       'string prefix) concretized by 6 name alphabets, every step and the file tree compared; observations = random histories on '
                        'random ordinary names recorded from FSBucket and validated by TLC (StorageTrace); distinct = behaviours + histories + '
                        'service requests')
     ctx.cov['distinct_nontrivial'] = len(behs) + summ['histories'] + ctx.cov.get('service_requests', 0)
